@@ -86,6 +86,9 @@ func searchCase(c *fw.Ctx, r *rand.Rand, i int, budget float64, maxDepth int) (r
 	if !good {
 		return root, cfg, 0, false
 	}
+	if !quietTame(root.h, cfg) {
+		cfg = searchCfgs[r.Intn(2)] // static leaves instead
+	}
 	n0, n1 := branching(b, cfg.limit)
 	bud := budget
 	if cfg.quiet {
